@@ -14,11 +14,11 @@ type M = map[string]interface{}
 type L = []interface{}
 
 var (
-	Thing   = &sim.Kind{Group: "ex.io", Version: "v1", Resource: "things", Kind: "Thing", Namespaced: true, StatusSub: true}
+	Thing   = &sim.Kind{Group: "ex.io", Version: "v1", Resource: "things", Kind: "Thing", Namespaced: true, StatusSub: true, ScaleSub: true}
 	NoThing = &sim.Kind{Group: "ex.io", Version: "v1", Resource: "nothings", Kind: "NoThing", Namespaced: true, StatusSub: false}
 	CThing  = &sim.Kind{Group: "ex.io", Version: "v1", Resource: "cthings", Kind: "CThing", Namespaced: false, StatusSub: true}
 	Leaf    = &sim.Kind{Group: "", Version: "v1", Resource: "leafs", Kind: "Leaf", Namespaced: true}
-	Widget  = &sim.Kind{Group: "apps.ex", Version: "v1", Resource: "widgets", Kind: "Widget", Namespaced: true, StatusSub: true}
+	Widget  = &sim.Kind{Group: "apps.ex", Version: "v1", Resource: "widgets", Kind: "Widget", Namespaced: true, StatusSub: true, ScaleSub: true}
 	CWidget = &sim.Kind{Group: "apps.ex", Version: "v1", Resource: "cwidgets", Kind: "CWidget", Namespaced: false}
 	Other   = &sim.Kind{Group: "", Version: "v1", Resource: "others", Kind: "Other", Namespaced: true}
 	Gadget  = &sim.Kind{Group: "apps.ex", Version: "v1", Resource: "gadgets", Kind: "Gadget", Namespaced: true, StatusSub: true}
